@@ -1,4 +1,5 @@
 import Dasp.Model.Osc
+import Dasp.Model.OscFP
 /-! Driver streams `osc`, `noise`, `simplex` of property C17: execute the oscillator model of
     `Model/Osc.lean` at its native-f64 instance `floatArith`.  Floats travel as 16-digit hex bit
     patterns (NaN canonicalised to 7ff8000000000000), integers in decimal.  Core Lean only. -/
@@ -30,61 +31,80 @@ def allSome {β : Type} : List (Option β) → Option (List β)
   | none :: _ => none
   | some x :: r => (allSome r).map (x :: ·)
 
-def FA := floatArith
+/-- an executable instance: arithmetic + codec of values to/from hex bit patterns -/
+structure Inst (α : Type) where
+  A : Arith α
+  dec : String → Option α
+  enc : α → String
+
+def floatInst : Inst Float := ⟨floatArith, f64Of?, f64Hex⟩
+/-- the soft-float instance (stream `fp`) -/
+def fpInst : Inst FP :=
+  ⟨fpArith fpSinNative, fun s => (hex64? s).map fun n => ofBits64 (UInt64.ofNat n), fun x => hexOfNat (toBits64 x).toNat⟩
+
+variable {α : Type}
 
 /-- interleave the four oscillator runs frame by frame: `phase sine saw square` per frame -/
-def zip4 : List Float → List Float → List Float → List Float → List String
-  | a :: as, b :: bs, c :: cs, d :: ds => f64Hex a :: f64Hex b :: f64Hex c :: f64Hex d :: zip4 as bs cs ds
+def zip4 (I : Inst α) : List α → List α → List α → List α → List String
+  | a :: as, b :: bs, c :: cs, d :: ds => I.enc a :: I.enc b :: I.enc c :: I.enc d :: zip4 I as bs cs ds
   | _, _, _, _ => []
 
-def oscRun (src : StepSrc Float) (n : Nat) : String :=
-  let p0 := phase FA src
-  let ph := run (nextPhase FA) n p0
-  let si := run (sineNext FA) n p0
-  let sa := run (sawNext FA) n p0
-  let sq := run (squareNext FA) n p0
-  " ".intercalate (zip4 ph.1 si.1 sa.1 sq.1) ++
+def oscRun (I : Inst α) (src : StepSrc α) (n : Nat) : String :=
+  let p0 := phase I.A src
+  let ph := run (nextPhase I.A) n p0
+  let si := run (sineNext I.A) n p0
+  let sa := run (sawNext I.A) n p0
+  let sq := run (squareNext I.A) n p0
+  " ".intercalate (zip4 I ph.1 si.1 sa.1 sq.1) ++
     s!" pulls {ph.2.src.pulled} {si.2.src.pulled} {sa.2.src.pulled} {sq.2.src.pulled}"
 
 /-- `osc const <rate> <hz> <n>` | `osc var <rate> <hz…>` (one output frame per hz frame) -/
-def oscLine (args : List String) : String :=
+def oscLine (I : Inst α) (args : List String) : String :=
   match args with
   | ["const", r, h, n] =>
-    match f64Of? r, f64Of? h, n.toNat? with
-    | some r, some h, some n => oscRun (constHz FA r h) n
+    match I.dec r, I.dec h, n.toNat? with
+    | some r, some h, some n => oscRun I (constHz I.A r h) n
     | _, _, _ => "bad-op"
   | "var" :: r :: hs =>
-    match f64Of? r, allSome (hs.map f64Of?) with
-    | some r, some hs => oscRun (varHz r hs) hs.length
+    match I.dec r, allSome (hs.map I.dec) with
+    | some r, some hs => oscRun I (varHz r hs) hs.length
     | _, _ => "bad-op"
   | _ => "bad-op"
 
-def simplexRun (src : StepSrc Float) (n : Nat) : String :=
-  let r := run (simplexNext FA) n (phase FA src)
-  " ".intercalate (r.1.map f64Hex) ++ s!" pulls {r.2.src.pulled}"
+def simplexRun (I : Inst α) (src : StepSrc α) (n : Nat) : String :=
+  let r := run (simplexNext I.A) n (phase I.A src)
+  " ".intercalate (r.1.map I.enc) ++ s!" pulls {r.2.src.pulled}"
 
 /-- `simplex const <rate> <hz> <n>` | `simplex var <rate> <hz…>` -/
-def simplexLine (args : List String) : String :=
+def simplexLine (I : Inst α) (args : List String) : String :=
   match args with
   | ["const", r, h, n] =>
-    match f64Of? r, f64Of? h, n.toNat? with
-    | some r, some h, some n => simplexRun (constHz FA r h) n
+    match I.dec r, I.dec h, n.toNat? with
+    | some r, some h, some n => simplexRun I (constHz I.A r h) n
     | _, _, _ => "bad-op"
   | "var" :: r :: hs =>
-    match f64Of? r, allSome (hs.map f64Of?) with
-    | some r, some hs => simplexRun (varHz r hs) hs.length
+    match I.dec r, allSome (hs.map I.dec) with
+    | some r, some hs => simplexRun I (varHz r hs) hs.length
     | _, _ => "bad-op"
   | _ => "bad-op"
 
 /-- `noise <seed> <n>` → n frames of `signal::noise(seed)` -/
-def noiseLine (args : List String) : String :=
+def noiseLine (I : Inst α) (args : List String) : String :=
   match args with
   | [s, n] =>
     match s.toNat?, n.toNat? with
     | some s, some n =>
       if s ≥ M64 then "bad-op" else
-      " ".intercalate ((run (noiseNext FA) n (noise s)).1.map f64Hex)
+      " ".intercalate ((run (noiseNext I.A) n (noise s)).1.map I.enc)
     | _, _ => "bad-op"
+  | _ => "bad-op"
+
+/-- `fp osc …` | `fp simplex …` | `fp noise …`: the same requests at the soft-float instance -/
+def fpLine (args : List String) : String :=
+  match args with
+  | "osc" :: rest => oscLine fpInst rest
+  | "simplex" :: rest => simplexLine fpInst rest
+  | "noise" :: rest => noiseLine fpInst rest
   | _ => "bad-op"
 
 end Dasp.Driver
